@@ -84,7 +84,8 @@ Inserted(d, a, b) ==
   /\ \A j \in DOMAIN b.k : HasKey(a, b.k[j]) \/ IsInert(d, b.k[j])
   /\ \A i, j \in DOMAIN a.k : (i < j) => KeyIndex(b, a.k[i]) < KeyIndex(b, a.k[j])    \* order of old members kept
 
-C10Clauses(r, res) ==
+\* the part that needs no specification verdict at all: the two recorded error lists are compared with each other
+C10Diff(r) ==
   IF ~r.hasalt THEN {}
   ELSE IF ~Inserted(r.d, r.S, r.alt.S) THEN {"~c10:notinsertion"}
   ELSE (IF BagOO(r.errs, r.alt.errs, FALSE) THEN {} ELSE {"c10:changed"})
@@ -92,8 +93,10 @@ C10Clauses(r, res) ==
        \* (validate() raises the first of them)
        \cup (IF Len(r.errs) # Len(r.alt.errs) \/ \A k \in DOMAIN r.errs : EqOO(r.errs[k], r.alt.errs[k], FALSE)
              THEN {} ELSE {"c10:reordered"})
-       \cup (LET res2 == Run(r.d, EnvOf(r, r.alt.S), r.alt.S, r.I) IN
-             IF SameBag(res.errs, res2.errs) /\ res.exc = res2.exc THEN {} ELSE {"~c10:spec_changed"})
+C10Clauses(r, res) ==
+  IF ~r.hasalt \/ ~Inserted(r.d, r.S, r.alt.S) THEN {}
+  ELSE LET res2 == Run(r.d, EnvOf(r, r.alt.S), r.alt.S, r.I) IN
+       IF SameBag(res.errs, res2.errs) /\ res.exc = res2.exc THEN {} ELSE {"~c10:spec_changed"}
 
 \* C02: the recorded errors of the schema with references, of its inlining as built by the harness (inl.S), and the
 \* specification's inlining
@@ -117,6 +120,8 @@ ClausesOf(r) ==
   LET env == EnvOf(r, r.S) IN
   IF ~PatsOK(env) THEN {"~badregex"}
   ELSE LET res == Run(r.d, env, r.S, r.I) IN
+       \* (C10's comparison of the two recorded lists holds whatever the specification can or cannot say about S)
+       C10Diff(r) \cup
        IF res.ood # {} THEN {"~ood"}
        ELSE IF res.exc # {} THEN (IF r.raised = "ref" /\ "ref" \in res.exc THEN {} ELSE {"~exc"})
        ELSE IF r.raised # "none" THEN {"c02:unexpected_" \o r.raised}
